@@ -39,6 +39,9 @@ var multiCache = map[string][]int{}
 // the multi-step sequences are); the chain store's puts follow in their own order.
 var orderCache = map[string][]int{}
 
+// fstepCache: per operation of that count, the number of file-level steps it consisted of.
+var fstepCache = map[string][]int{}
+
 func crashOrder(kinds []string) []int {
 	var first, rest []int
 	for i := len(kinds) - 1; i >= 0; i-- {
@@ -75,6 +78,32 @@ func RunDaemon(t *testing.T, sc *DaemonScenario, dump io.Writer) (res RunResult)
 			opsCache[key] = ops
 			multiCache[key] = r0.MultiTx
 			orderCache[key] = crashOrder(r0.OpKinds)
+			fstepCache[key] = r0.FileSteps
+		}
+		if sc.Crash.Mode == "fstep" {
+			// crash between the file-level steps of one operation: only operations that write files have such points
+			fs := fstepCache[key]
+			var cand []int
+			for i, nsteps := range fs {
+				if nsteps >= sc.Crash.TornPct {
+					cand = append(cand, i+1)
+				}
+			}
+			if len(cand) == 0 {
+				res = RunResult{Seed: sc.Seed, Engine: "daemon", Prop: sc.Prop, Counters: map[string]int{"probe:no_operation_with_that_many_file_steps": 1},
+					Summary: fmt.Sprintf("%s: no persistence operation consists of %d file-level steps", sc.Mode, sc.Crash.TornPct)}
+				return
+			}
+			resolved := *sc
+			cr := *sc.Crash
+			cr.At = cand[len(cand)-1-cr.AtIndex%len(cand)] // the latest first
+			resolved.Crash = &cr
+			res = runDaemon1(t, &resolved, dump)
+			res.Summary += fmt.Sprintf(" ops=%d at=%d mode=fstep%d", ops, cr.At, cr.TornPct)
+			if res.Counters != nil {
+				res.Counters[fmt.Sprintf("c13point:%s:%d/%d:fstep%d", sc.Mode, cr.At, ops, cr.TornPct)] = 1
+			}
+			return
 		}
 		if sc.Crash.Mode == "mid" {
 			// crash between the write transactions of one operation: only operations made of several have such a point
@@ -347,6 +376,7 @@ func (e *daemonEngine) body(res *RunResult) {
 		e.rec.Count("probe:target_persistence_ops", n.pc.count)
 		res.MultiTx = append([]int(nil), n.pc.multi...)
 		res.OpKinds = append([]string(nil), n.pc.kinds...)
+		res.FileSteps = append([]int(nil), n.pc.fsteps...)
 		res.Summary += e.crashSummary()
 		if sc.Crash.At > 0 && !n.pc.fired {
 			e.rec.Count("probe:crash_point_not_reached", 1)
